@@ -383,7 +383,7 @@ var churnOpened int64
 
 func TestSequential(t *testing.T) {
 	defer stopServer()
-	kit.Check(t, kit.Spec[SeqCase]{Sub: "seq", Quick: 120, Thorough: 1500, Gen: genSeq, Exec: execSeq})
+	kit.Check(t, kit.Spec[SeqCase]{Sub: "seq", Quick: 120, Thorough: 4000, Gen: genSeq, Exec: execSeq})
 }
 
 // ---------------------------------------------------------------- concurrent schedules
@@ -572,7 +572,7 @@ func orderProblem(got []string) string {
 
 func TestConcurrent(t *testing.T) {
 	defer stopServer()
-	kit.Check(t, kit.Spec[ConcCase]{Sub: "conc", Quick: 12, Thorough: 250,
+	kit.Check(t, kit.Spec[ConcCase]{Sub: "conc", Quick: 12, Thorough: 700,
 		Gen: func(t *rapid.T) ConcCase {
 			return ConcCase{Channels: rapid.IntRange(1, 3).Draw(t, "channels"), Publishers: rapid.IntRange(1, 3).Draw(t, "publishers"),
 				PerPub: rapid.SampledFrom([]int{50, 200, 600}).Draw(t, "perpub"), Stable: rapid.IntRange(1, 3).Draw(t, "stable"),
@@ -748,7 +748,7 @@ func execStall(c StallCase) kit.Outcome {
 
 func TestStalledSubscriber(t *testing.T) {
 	defer stopServer()
-	kit.Check(t, kit.Spec[StallCase]{Sub: "stall", Quick: 2, Thorough: 20,
+	kit.Check(t, kit.Spec[StallCase]{Sub: "stall", Quick: 2, Thorough: 50,
 		Gen: func(t *rapid.T) StallCase {
 			return StallCase{PayloadKB: rapid.SampledFrom([]int{16, 64, 256}).Draw(t, "kb"), Messages: rapid.SampledFrom([]int{40, 160, 400}).Draw(t, "msgs"),
 				Healthy: rapid.IntRange(0, 2).Draw(t, "healthy"), Late: rapid.Bool().Draw(t, "late"), LateMs: rapid.SampledFrom([]int{50, 300, 900, 1400}).Draw(t, "latems")}
